@@ -724,10 +724,15 @@ func main() {
 	}
 
 	burstFIFO(o)
+	if o.Replay == "" {
+		realtimeWatcher(o)
+	}
 
 	var k Case
 	if _, ok := o.ReplayCase(&k); ok {
-		if len(k.Ops) > 0 {
+		if k.Realtime {
+			realtimeWatcher(o)
+		} else if len(k.Ops) > 0 {
 			if k.Sched {
 				if schedOK {
 					record(o, "sched", replay(k, true))
